@@ -1043,6 +1043,7 @@ func propC14(r *Run) {
 	c14KeyEncoding(r)
 	c14Environments(r)
 	c14WriterFaults(r)
+	c14Pipes(r)
 
 	// --- systematic sweeps, every command
 	for ci := range c14Cmds {
